@@ -454,10 +454,29 @@ void token_tree_free(token * t) {
 	return;
 #else
 	token * n;
+	token * last;
 
+	// Iterative -- a tree can be as deep as the input is long, and freeing it
+	// recursively (one frame per level) overflowed the stack.  The children of
+	// a token are moved in front of it in the chain, then the chain is freed.
 	while (t != NULL) {
+		if (t->child != NULL) {
+			n = t->child;
+			t->child = NULL;
+
+			last = n;
+
+			while (last->next != NULL) {
+				last = last->next;
+			}
+
+			last->next = t;
+			t = n;
+			continue;
+		}
+
 		n = t->next;
-		token_free(t);
+		free(t);
 
 		t = n;
 	}
